@@ -81,6 +81,10 @@ pub enum Case {
     /// reports, keys and mouse sequences (printed by the C04 protocol printer) typed into the pty in
     /// batches of arbitrary size while output is pending: the events must come out as printed
     Events { items: Vec<super::c04::Item>, batches: Vec<usize>, pending_kb: usize, slow: bool, seed: u64 },
+    /// the terminal emulator stops reading while a lot of output is queued: polls still return in
+    /// bounded time and a wake is still delivered; `via_fd` builds the terminal with
+    /// `SystemTerminal::new_from_fd` from an ordinary (blocking) descriptor instead of `open`
+    Stall { via_fd: bool, kb: usize, seed: u64 },
     /// termination signal must surface as Error::Quit
     Quit {
         signal: i32,
@@ -483,6 +487,15 @@ fn check_input_case(
             // the application asks for the cursor position while the keys typed above are unread;
             // a few more keys arrive right behind the terminal's answer (same write as the DA1 reply)
             positions_left -= 1;
+            // once per session the terminal is slow to answer (1.3 s): position() has to wait for
+            // the answer, and what arrives meanwhile - a wake here - must not get lost
+            let slow_answer = positions_left == 0 && positions >= 3 && rng.chance(1, 2);
+            if slow_answer {
+                session.peer.shared.reply_delay_ms.store(1300, Ordering::SeqCst);
+                let _ = waker.wake();
+                wakes_sent += 1;
+                ctx.feat("input.position-call-answered-late");
+            }
             let extra = &keys[sent..(sent + 3).min(keys.len())];
             *session.peer.shared.after_da1.lock().unwrap() = extra.to_vec();
             sent += extra.len();
@@ -494,6 +507,7 @@ fn check_input_case(
                 ),
                 Err(e) => fail!("input:poll-error", "position() failed while input was arriving: {e:?}"),
             }
+            session.peer.shared.reply_delay_ms.store(0, Ordering::SeqCst);
             ctx.feat("input.position-calls-with-unread-input");
         }
         if winch_raised < winch && rng.chance(1, 2) {
@@ -720,6 +734,96 @@ fn check_quit_case(signal: i32, pending_kb: usize, again: bool, seed: u64, ctx: 
     }
     drop(term);
     check_restored(&session, before, "after-quit-signal", true, ctx)?;
+    Ok(())
+}
+
+/// The peer stops reading (a stalled terminal emulator) while hundreds of KiB are queued. While it
+/// is stalled every `poll(Some(20 ms))` must come back, and a wake issued meanwhile must be delivered.
+/// A helper thread resumes the peer after 4 s whatever happens, so a poll that blocks inside
+/// `write(2)` ends; it is recognised by the fact that no poll returned while the peer was stalled.
+fn check_stall_case(via_fd: bool, kb: usize, seed: u64, ctx: &mut Ctx) -> Result<(), Fail> {
+    use std::os::fd::{FromRawFd, OwnedFd};
+    std::env::set_var("TERM", "xterm-256color");
+    let pty = Pty::open(24, 80, 24 * 16, 80 * 8).map_err(|e| Fail::new("rig:openpt", format!("{e}")))?;
+    let before = pty.termios();
+    let peer = Peer::start(pty.master, Drain::Fast, seed);
+    let _ = unix_verif::take_log();
+    let term = if via_fd {
+        let path = std::ffi::CString::new(pty.slave_path.clone()).unwrap();
+        let fd = unsafe { libc::open(path.as_ptr(), libc::O_RDWR | libc::O_NOCTTY) };
+        ensure!(fd >= 0, "rig:open", "open({}) failed", pty.slave_path);
+        SystemTerminal::new_from_fd(unsafe { OwnedFd::from_raw_fd(fd) })
+    } else {
+        SystemTerminal::open(&pty.slave_path)
+    }
+    .map_err(|e| Fail::new("rig:open", format!("open failed: {e:?}")))?;
+    let mut session = Session { term: Some(term), peer, pty };
+    let mut term = session.term.take().unwrap();
+    let waker = term.waker();
+
+    session.peer.park();
+    term.write_all(&filler(kb * 1024)).map_err(|e| Fail::new("term:write-error", format!("{e}")))?;
+    let resume = {
+        let shared = session.peer.shared.clone();
+        let cancel = Arc::new(std::sync::atomic::AtomicBool::new(false));
+        let c2 = cancel.clone();
+        let handle = std::thread::spawn(move || {
+            for _ in 0..400 {
+                if c2.load(Ordering::SeqCst) {
+                    return;
+                }
+                std::thread::sleep(Duration::from_millis(10));
+            }
+            shared.paused.store(false, Ordering::SeqCst);
+        });
+        (cancel, handle)
+    };
+    let mut returned_while_stalled = 0u32;
+    let mut wake_seen = false;
+    for n in 0..6 {
+        if n == 1 {
+            let _ = waker.wake();
+        }
+        let r = term.poll(Some(Duration::from_millis(20)));
+        let still_stalled = session.peer.shared.paused.load(Ordering::SeqCst);
+        match r {
+            Ok(Some(TerminalEvent::Wake)) if still_stalled => wake_seen = true,
+            Ok(_) => {}
+            Err(e) => {
+                resume.0.store(true, Ordering::SeqCst);
+                let _ = resume.1.join();
+                fail!("input:poll-error", "poll failed while the terminal was stalled: {e:?}")
+            }
+        }
+        if still_stalled {
+            returned_while_stalled += 1;
+        }
+    }
+    resume.0.store(true, Ordering::SeqCst);
+    let _ = resume.1.join();
+    session.peer.shared.paused.store(false, Ordering::SeqCst);
+    ctx.feat("stall.sessions");
+    ctx.feat_if(via_fd, "stall.sessions.new_from_fd");
+    ensure!(
+        returned_while_stalled >= 1,
+        "poll:blocked-while-terminal-stalled",
+        "{kb} KiB queued, the terminal not reading: none of six poll(20 ms) calls returned before the terminal resumed (terminal built with {})",
+        if via_fd { "new_from_fd" } else { "open" }
+    );
+    ensure!(
+        wake_seen || returned_while_stalled < 3,
+        "wake:lost",
+        "a wake issued while the terminal was stalled was not delivered by the {returned_while_stalled} polls that returned meanwhile"
+    );
+    // let everything out, then release
+    for _ in 0..2000 {
+        if term.frames_pending() == 0 {
+            break;
+        }
+        let _ = term.poll(Some(Duration::from_millis(20)));
+    }
+    drop(term);
+    check_restored(&session, before, "after-stall", true, ctx)?;
     Ok(())
 }
 
@@ -1060,7 +1164,15 @@ impl Prop for C17 {
                 // byte-wise typing is slow (one poll per byte): keep those sessions short
                 let tiny = batches.iter().all(|b| *b < 8);
                 let n = rng.range(5, if tiny { 60 } else if tier.quick() { 120 } else { 600 });
-                let items = (0..n).map(|i| super::c04::gen_item(rng, i as u64 * 7 + 1)).collect();
+                // (the long reports of the C04 printer would make byte-wise sessions take minutes)
+                let items = (0..n)
+                    .map(|i| loop {
+                        let item = super::c04::gen_item(rng, i as u64 * 7 + 1);
+                        if item.enc.len() <= 3000 {
+                            break item;
+                        }
+                    })
+                    .collect();
                 Case::Events {
                     items,
                     batches,
@@ -1069,6 +1181,11 @@ impl Prop for C17 {
                     seed: rng.next_u64(),
                 }
             }
+            7 if rng.chance(1, 3) => Case::Stall {
+                via_fd: rng.bool(),
+                kb: *rng.pick(&[300usize, 600, 1024]),
+                seed: rng.next_u64(),
+            },
             7 => Case::Quit {
                 signal: *rng.pick(&[libc::SIGTERM, libc::SIGINT, libc::SIGQUIT]),
                 pending_kb: *rng.pick(&[0usize, 50]),
@@ -1115,6 +1232,7 @@ impl Prop for C17 {
             Case::Events { items, batches, pending_kb, slow, seed } => {
                 check_events_case(items, batches, *pending_kb, *slow, *seed, ctx)
             }
+            Case::Stall { via_fd, kb, seed } => check_stall_case(*via_fd, *kb, *seed, ctx),
             Case::Quit { signal, during_open, seed, .. } if *during_open > 0 => {
                 check_quit_during_open(*signal, *during_open, *seed, ctx)
             }
